@@ -265,9 +265,56 @@ async function execC16(mods, SPC, run) {
 // C13: Hash256Writer write sequences
 // ------------------------------------------------------------------------------------------------
 let TAPPED = null;
+let MIRROR = false; // byte stream reconstructed from the public API instead of tapped
+function mirrorBytes(op) {
+  const enc = (tag, s) => {
+    const b = Buffer.from(new TextEncoder().encode(s));
+    const l = Buffer.alloc(4);
+    l.writeUInt32BE(b.length);
+    return Buffer.concat([Buffer.from([tag]), l, b]);
+  };
+  if (op.op === "tag") return enc(1, op.v);
+  if (op.op === "string") return enc(2, op.v);
+  if (op.op === "number") {
+    const v = numOf(op.v);
+    return enc(3, Number.isNaN(v) ? "NaN" : Object.is(v, -0) ? "-0" : String(v));
+  }
+  if (op.op === "boolean") return Buffer.from([op.v ? 4 : 5]);
+  if (op.op === "null") return Buffer.from([6]);
+  return Buffer.alloc(0);
+}
+// The private byte sink was renamed: fall back to the documented framing, but only after it has
+// been validated against the implementation on single-block inputs (no buffering involved).
+function validateMirror(H) {
+  const rng = new Rng(1, "mirror", 0);
+  for (let i = 0; i < 200; i++) {
+    const w = new H.Hash256Writer();
+    const parts = [];
+    let total = 0;
+    for (let k = rng.range(0, 4); k > 0; k--) {
+      const op = [{ op: "tag", v: "ab" }, { op: "string", v: strOfBytes(rng, rng.range(0, 8)) }, { op: "number", v: rng.pick([0, 1.5, "NaN", "-0"]) }, { op: "boolean", v: rng.chance(1, 2) }, { op: "null" }][rng.below(5)];
+      const b = mirrorBytes(op);
+      if (total + b.length > 50) break;
+      total += b.length;
+      parts.push(b);
+      if (op.op === "tag") w.updateTag(op.v);
+      else if (op.op === "string") w.updateString(op.v);
+      else if (op.op === "number") w.updateNumber(numOf(op.v));
+      else if (op.op === "boolean") w.updateBoolean(op.v);
+      else w.updateNull();
+    }
+    if (w.digestHex() !== createHash("sha256").update(Buffer.concat(parts)).digest("hex")) return false;
+  }
+  return true;
+}
 function installTap(H) {
   const proto = H.Hash256Writer.prototype;
-  if (typeof proto.updateBytes !== "function") return false;
+  if (typeof proto.updateBytes !== "function") {
+    if (MIRROR) return true;
+    if (!validateMirror(H)) return false;
+    MIRROR = true;
+    return true;
+  }
   if (proto.__tapped) return true;
   const orig = proto.updateBytes;
   proto.updateBytes = function (data) {
@@ -373,7 +420,10 @@ function execC13(H, run) {
           streamAtDigest = Buffer.concat(TAPPED);
         } else viol("second-digest-did-not-throw", { op_index: i, value: d });
       }
-      if (op.op !== "digest") out.writes++;
+      if (op.op !== "digest") {
+        out.writes++;
+        if (MIRROR && TAPPED) TAPPED.push(mirrorBytes(op));
+      }
     } catch (e) {
       threw = true;
       if (!after) viol("write-or-digest-threw-before-digest", { op_index: i, op, msg: String(e && e.message) });
@@ -406,6 +456,7 @@ function bigC13(H) {
   let bytes = 0;
   for (let i = 0; i < 514; i++) {
     w.updateString(chunk);
+    if (MIRROR) ref.update(mirrorBytes({ op: "string", v: chunk }));
     bytes += 5 + chunk.length;
   }
   const got = w.digestHex();
@@ -477,7 +528,7 @@ async function workerMain(prop) {
       if (!ctxs.mods.length) throw new Error("no module could be loaded");
     } else {
       ctxs.H = await rt("hash");
-      if (!installTap(ctxs.H)) throw new Error("Hash256Writer.prototype.updateBytes not found: cannot tap the byte sink");
+      if (!installTap(ctxs.H)) throw new Error("Hash256Writer.prototype.updateBytes not found and the documented framing does not validate on single-block inputs: cannot obtain the byte stream");
     }
     process.on("message", async (m) => {
       if (m.done) process.exit(0);
